@@ -152,6 +152,7 @@ def c01(case, lines):
         if k != "clean" or i == 0 or items[i - 1][0] != "sess" or not it["op"].startswith("clean "): continue
         s = items[i - 1][1]
         reqs = [o for o in s.ops if o.text.startswith("req ")]
+        if len(reqs) != len(it["roots"] or []): continue    # (shrunk case: session and reference build no longer correspond)
         if any(o.result is None or not o.result.startswith("out ") for o in reqs):
             if it["abort"] is None:
                 fails.append(f"session {i}: incremental build aborted/skipped ({[o.result for o in reqs]}) but the from-scratch build returned")
@@ -408,11 +409,18 @@ def c19(case, lines):
             if o.result and o.result.startswith("abort other"):
                 fails.append(f"session {i} '{o.text}': unexpected panic {o.result}")
         if any(o.result and o.result.startswith("abort") for o in it.ops):
+            # after an earlier abort, a diagnosed violation must still exist: the from-scratch build of ALL known tasks aborts too
+            ab = [o.result for o in it.ops if o.result in ("abort cyclic", "abort hidden", "abort overlap")]
+            cn = [x[1] for x in items[i + 1:i + 3] if x[0] == "clean" and x[1]["op"] == "cleannodes"]
+            if aborted_before and ab and cn and cn[0]["abort"] is None:
+                fails.append(f"session {i} (after an earlier abort): aborted again with '{ab[0]}' but the from-scratch build of all known tasks "
+                             f"{cn[0]['roots']} in the same state succeeds (the violation no longer exists)")
             aborted_before = True
         elif aborted_before and i + 1 < len(items) and items[i + 1][0] == "clean" and items[i + 1][1]["op"].startswith("clean "):
             c = items[i + 1][1]
             outs = [o.result[4:] for o in it.ops if o.text.startswith("req ") and o.result and o.result.startswith("out ")]
-            if c["abort"] is None and (outs != c["out"] or it.fs != c["fs"]):
+            nreq = len([o for o in it.ops if o.text.startswith("req ")])
+            if c["abort"] is None and nreq == len(c["roots"] or []) and (outs != c["out"] or it.fs != c["fs"]):
                 fails.append(f"session {i} (after an earlier abort): outputs {outs} / contents {it.fs} != from-scratch {c['out']} / {c['fs']}")
     return fails
 
